@@ -379,6 +379,7 @@ type sop struct {
 	from   []string // canonical version names for changes
 	to     []string
 	flt    *l2fault
+	col    int // selo: the non-key column to order by
 }
 
 // l2fault: a one-shot storage fault for the duration of one statement: the k-th matching request
@@ -427,7 +428,8 @@ func (w *l2world) exec(op *sop, stats map[string]int) bool {
 			return fOK
 		}
 		match := (f.on == "G" && kind == "G") || (f.on == "P" && kind == "P" && !strings.Contains(key, "/merged/")) ||
-			(f.on == "Dn" && kind == "D" && strings.Contains(key, "/node/")) || (f.on == "Dm" && kind == "D" && strings.Contains(key, "/merged/"))
+			(f.on == "Dn" && kind == "D" && strings.Contains(key, "/node/")) || (f.on == "Dm" && kind == "D" && strings.Contains(key, "/merged/")) ||
+			(f.on == "Pm" && kind == "P" && strings.Contains(key, "/merged/")) || (f.on == "Dc" && kind == "D" && strings.Contains(key, "/current/"))
 		if !match {
 			return fOK
 		}
@@ -453,8 +455,11 @@ func (w *l2world) exec(op *sop, stats map[string]int) bool {
 	w.ops.sb.WriteString(opsHead)
 	w.out.sb.Reset()
 	w.out.sb.WriteString(outHead)
-	x := w.fltFired && w.lastFailed && !strings.HasPrefix(f.on, "D")
-	// (a DELETE fault is part of the model's run of the vacuum: the statement is not left out)
+	x := w.fltFired && w.lastFailed && !(f.on == "Dn" || f.on == "Dm")
+	// (a DELETE fault on history deletion is part of the model's run of the vacuum: the statement
+	//  is not left out; a fault on the retirement of a superseded version — Pm, Dc — is swallowed
+	//  by the commit, which the model reproduces under the same plan: if the statement fails
+	//  nevertheless it is left out like any other and must have published nothing)
 	skip := 0
 	if x {
 		skip = len(strings.Fields(opText))
@@ -717,6 +722,59 @@ func (w *l2world) exec1(op *sop, stats map[string]int) bool {
 			o.sval(cn.v)
 		}
 		o.i(op.limit)
+	case "selo":
+		// ORDER BY a non-key column (ties by key): the cursor delivers key order and must not
+		// tell SQLite that any other order is already satisfied
+		q := fmt.Sprintf("select * from @T order by c%d", op.col)
+		if op.desc {
+			q += " desc"
+		}
+		q += ", k"
+		out.s(";")
+		out.s("SO")
+		var got [][]sval
+		var err error
+		if catch(func() {
+			var rows *sql.Rows
+			rows, err = c.db.Query(strings.ReplaceAll(q, "@T", c.table))
+			if err == nil {
+				got, err = scanRows(rows)
+			}
+		}) {
+			out.s("panic")
+			w.dead = true
+		} else if err != nil {
+			w.lastFailed = true
+			out.s("err")
+		} else {
+			out.s("ok")
+			w.rowsOut(out, got)
+			stats["selo"]++
+		}
+		if w.native && c.native != "" {
+			rows, err := c.db.Query(strings.ReplaceAll(q, "@T", c.native))
+			var nat [][]sval
+			if err == nil {
+				nat, err = scanRows(rows)
+			}
+			emptyText := false
+			for _, r := range nat {
+				for _, v := range r {
+					if v.tag == 'T' && len(v.bs) == 0 {
+						emptyText = true // (finding F-C08-1: read back as NULL, which sorts elsewhere)
+					}
+				}
+			}
+			if err == nil && !emptyText {
+				out.s("nat:")
+				out.s("ok")
+				w.rowsOut(out, nat)
+			}
+		}
+		o.s("selo")
+		o.i(op.c)
+		o.i(op.col)
+		o.b(op.desc)
 	case "rdconn":
 		var dl, wt sql.NullString
 		err := c.db.QueryRow("select deadline, write_time from s3db_conn").Scan(&dl, &wt)
@@ -1080,9 +1138,16 @@ func runL2History(g *gen, prof l2profile, nops int, stats map[string]int) (strin
 				op.flt = &l2fault{on: "G", k: g.r.Intn(3)}
 				if g.r.Intn(3) == 0 && !w.connInTx(op.c) {
 					op.flt = &l2fault{on: "P", k: g.r.Intn(3)}
+					if op.kind != "sel" && g.r.Intn(3) == 0 {
+						// the retirement of the superseded version after the new one is published
+						op.flt = &l2fault{on: []string{"Pm", "Dc"}[g.r.Intn(2)], k: 0}
+					}
 				}
 			case "commit":
 				op.flt = &l2fault{on: "P", k: g.r.Intn(4)}
+				if g.r.Intn(3) == 0 {
+					op.flt = &l2fault{on: []string{"Pm", "Dc"}[g.r.Intn(2)], k: 0}
+				}
 			case "vacuum":
 				// the first DELETE of a node, or of a superseded version, fails: the vacuum reports
 				// an error, the connection and the table stay usable and show the same rows
@@ -1281,7 +1346,13 @@ func runL2History(g *gen, prof l2profile, nops int, stats map[string]int) (strin
 				}
 			}
 		default:
-			do(&sop{kind: "sel", c: c})
+			if prof.native && g.r.Intn(2) == 0 {
+				// (descending only on single-node trees: a descending ORDER BY makes the cursor scan
+				//  backwards, which on multi-level trees is finding F-C06-2)
+				do(&sop{kind: "selo", c: c, col: g.r.Intn(ncols), desc: epn == 0 && g.r.Intn(2) == 0})
+			} else {
+				do(&sop{kind: "sel", c: c})
+			}
 		}
 		if prof.faults && prof.vacuum && !intx[c] && g.r.Intn(7) == 0 {
 			do(&sop{kind: "vacuum", c: c, before: []int64{l2BaseSec + int64(g.r.Intn(9))*10, 4102444800, 4102444800}[g.r.Intn(3)]})
@@ -1588,6 +1659,8 @@ func replaySQL(r *tr) (string, string) {
 			r.names()
 		case "version", "rdconn":
 			op.c = r.i()
+		case "selo":
+			op.c, op.col, op.desc = r.i(), r.i(), r.b()
 		case "dl":
 			op.c, op.t = r.i(), r.z()
 		case "changes":
